@@ -1,4 +1,4 @@
-//go:build c09
+//go:build c09 || c08 || c10
 
 package main
 
